@@ -1,4 +1,430 @@
 import OtelVerif.Model.C14
-/-! C14 property theorems (stub) -/
+/-!
+# C14 — opaque (secret) configuration values never appear in any rendering
+
+Property theorems only.  `Gen.Opaque.methods` is regenerated from `config/configopaque/opaque.go`
+on every run, so every statement about `realTD` is re-checked against what the code says now.
+
+Non-interference is the statement used throughout: a rendering computed for two different secret
+environments `ρ₁ ρ₂` is the same (a secret that happens to be a substring of the marker cannot be
+told apart by substring search; non-interference does not have that blind spot).
+-/
 namespace OtelVerif.C14
+open OtelVerif.Gen
+
+/-- the method table of the real type -/
+def realTD : TD := Opaque.methods
+
+/-- every method returns an expression that does not mention the receiver -/
+def TD.Const (td : TD) : Prop := ∀ m ∈ td, m.result.usesRecv = false
+
+instance (td : TD) : Decidable td.Const := by unfold TD.Const; infer_instance
+
+/-! ## the methods -/
+
+theorem eval_const {e : MExpr} (h : e.usesRecv = false) (s₁ s₂ : String) : e.eval s₁ = e.eval s₂ := by
+  induction e with
+  | recv => simp [MExpr.usesRecv] at h
+  | lit c => rfl
+  | goQuote e ih => simp only [MExpr.usesRecv] at h; simp only [MExpr.eval, ih h]
+  | cat a b iha ihb =>
+    simp only [MExpr.usesRecv, Bool.or_eq_false_iff] at h
+    simp only [MExpr.eval, iha h.1, ihb h.2]
+
+/-- regenerated obligation: no method of `configopaque.String` looks at the receiver -/
+theorem C14_methods_recv_free : realTD.Const := by decide
+
+/-- every method (String, GoString, MarshalText, MarshalBinary, Format's operand, and any method
+added later) returns the same bytes for every two secrets -/
+theorem C14_methods_const : ∀ m ∈ realTD, ∀ s₁ s₂ : String, m.result.eval s₁ = m.result.eval s₂ :=
+  fun m hm s₁ s₂ => eval_const (C14_methods_recv_free m hm) s₁ s₂
+
+/-- … and what they return is the marker (`GoString`: the Go-quoted marker), on values (value receivers) -/
+theorem C14_methods_marker (s : String) :
+    (realTD.find "String" false).map (·.result.eval s) = some Opaque.marker ∧
+    (realTD.find "MarshalText" false).map (·.result.eval s) = some Opaque.marker ∧
+    (realTD.find "MarshalBinary" false).map (·.result.eval s) = some Opaque.marker ∧
+    (realTD.find "GoString" false).map (·.result.eval s) = some ("\"" ++ Opaque.marker ++ "\"") ∧
+    (realTD.find "Format" false).map (·.result.eval s) = some Opaque.marker := by
+  refine ⟨rfl, rfl, rfl, rfl, rfl⟩
+
+/-- the type implements `fmt.Formatter` on values, as a delegation (`fmt.FormatString`) -/
+theorem C14_formatter_present : (realTD.find "Format" false).map (·.kind) = some MKind.formatDelegate := by decide
+
+/-! ## fmt: non-interference for every verb and flag over plain containers -/
+
+theorem find_mono {td : TD} {n : String} (h : (td.find n false).isSome = true) : (td.find n true).isSome = true := by
+  unfold TD.find at *
+  rw [List.find?_isSome] at h ⊢
+  obtain ⟨x, hx, hp⟩ := h
+  refine ⟨x, hx, ?_⟩
+  simp only [Bool.or_false, Bool.and_eq_true] at hp
+  simp [hp.1]
+
+theorem find_mem {td : TD} {n : String} {p : Bool} {m : Method} (h : td.find n p = some m) : m ∈ td := by
+  unfold TD.find at h
+  exact List.mem_of_find?_eq_some h
+
+theorem methodsOf_const {td : TD} (hc : td.Const) (c : FmtCtx) (p : Bool) (s₁ s₂ : String) :
+    methodsOf td c p s₁ = methodsOf td c p s₂ := by
+  have key : ∀ n m, td.find n p = some m → m.result.eval s₁ = m.result.eval s₂ :=
+    fun n m h => eval_const (hc m (find_mem h)) s₁ s₂
+  unfold methodsOf
+  cases hF : td.find "Format" p with
+  | some m => simp only [key _ _ hF]
+  | none =>
+    cases hG : td.find "GoString" p <;> cases hE : td.find "Error" p <;> cases hS : td.find "String" p <;>
+      simp only [] <;> (try rw [key _ _ hG]) <;> (try rw [key _ _ hE]) <;> (try rw [key _ _ hS])
+
+theorem methodsOf_isSome {td : TD} {p : Bool} (hF : (td.find "Format" p).isSome = true) (c : FmtCtx) (s : String) :
+    (methodsOf td c p s).isSome = true := by
+  unfold methodsOf
+  cases h : td.find "Format" p with
+  | some m => rfl
+  | none => simp [h] at hF
+
+theorem isOpq_some {v : GV} (h : v.isOpq.isSome = true) : ∃ i, v = .opq i := by
+  cases v <;> simp [GV.isOpq] at h ⊢
+
+section fmtNI
+set_option linter.unusedSectionVars false
+variable {td : TD} (hc : td.Const) (hF : (td.find "Format" false).isSome = true)
+variable (c : FmtCtx) (hw : (c.verb == 'w') = false) (ρ₁ ρ₂ : Nat → String)
+include hc hF hw
+
+theorem opq_leaf_ni (p : Bool) (hp : (td.find "Format" p).isSome = true) (i : Nat) (d₁ d₂ : List Leaf) :
+    (methodsOf td c p (ρ₁ i)).getD d₁ = (methodsOf td c p (ρ₂ i)).getD d₂ := by
+  have h1 := methodsOf_isSome hp c (ρ₁ i)
+  have h2 := methodsOf_const hc c p (ρ₁ i) (ρ₂ i)
+  rw [← h2]
+  cases h : methodsOf td c p (ρ₁ i) with
+  | none => simp [h] at h1
+  | some l => rfl
+
+mutual
+theorem pv_ni : ∀ v : GV, v.plainIn = true → pv td c ρ₁ false true v = pv td c ρ₂ false true v
+  | .opq i, _ => by
+    simp only [pv, hw, Bool.not_false, Bool.and_self, Bool.false_and, if_true]
+    exact opq_leaf_ni hc hF c hw ρ₁ ρ₂ false hF i _ _
+  | .str _, _ => rfl
+  | .num _, _ => rfl
+  | .nilv, _ => rfl
+  | .nilSlice, _ => rfl
+  | .nilMap, _ => rfl
+  | .ptr v, h => by
+    simp only [GV.plainIn] at h
+    obtain ⟨i, rfl⟩ := isOpq_some h
+    have hne : (c.verb != 'w') = true := by simp [bne, hw]
+    have h1 := methodsOf_isSome (find_mono hF) c (ρ₁ i)
+    have h2 := methodsOf_const hc c true (ρ₁ i) (ρ₂ i)
+    simp only [pv, GV.isOpq, hne, Bool.not_false, Bool.and_self, if_true]
+    rw [← h2]
+    cases h : methodsOf td c true (ρ₁ i) with
+    | none => simp [h] at h1
+    | some l => rfl
+  | .iface v, h => by
+    simp only [GV.plainIn] at h
+    simp only [pv]; exact pv_ni v h
+  | .slice vs, h => by
+    simp only [GV.plainIn] at h
+    simp only [pv, hw, Bool.and_false, Bool.false_eq_true, if_false]; exact pvL_ni vs h
+  | .array vs, h => by
+    simp only [GV.plainIn] at h
+    simp only [pv, hw, Bool.and_false, Bool.false_eq_true, if_false]; exact pvL_ni vs h
+  | .map kvs, h => by
+    simp only [GV.plainIn] at h
+    simp only [pv, hw, Bool.and_false, Bool.false_eq_true, if_false]; exact pvKV_ni kvs h
+  | .struct fs, h => by
+    simp only [GV.plainIn] at h
+    simp only [pv, hw, Bool.and_false, Bool.false_eq_true, if_false]; exact pvF_ni fs h
+theorem pvL_ni : ∀ vs : List GV, GV.plainInL vs = true → pvL td c ρ₁ true vs = pvL td c ρ₂ true vs
+  | [], _ => rfl
+  | v :: vs, h => by
+    simp only [GV.plainInL, Bool.and_eq_true] at h
+    simp only [pvL, pv_ni v h.1, pvL_ni vs h.2]
+theorem pvKV_ni : ∀ kvs : List (GV × GV), GV.plainInKV kvs = true → pvKV td c ρ₁ true kvs = pvKV td c ρ₂ true kvs
+  | [], _ => rfl
+  | (k, v) :: kvs, h => by
+    simp only [GV.plainInKV, Bool.and_eq_true] at h
+    simp only [pvKV, pv_ni k h.1.1, pv_ni v h.1.2, pvKV_ni kvs h.2]
+theorem pvF_ni : ∀ fs : List (FieldInfo × GV), GV.plainInF fs = true → pvF td c ρ₁ true fs = pvF td c ρ₂ true fs
+  | [], _ => rfl
+  | (fi, v) :: fs, h => by
+    simp only [GV.plainInF, Bool.and_eq_true] at h
+    simp only [pvF, h.1.1, Bool.and_self, pv_ni v h.1.2, pvF_ni fs h.2]
+end
+
+/-- `printArg` level: every verb except `w` and `p`, every flag, every plain operand -/
+theorem pa_ni (hp : (c.verb == 'p') = false) (v0 : GV) (h : v0.plainTop = true) :
+    pa td c ρ₁ v0 = pa td c ρ₂ v0 := by
+  unfold pa
+  simp only [hw, hp, Bool.false_and, Bool.false_eq_true, if_false]
+  by_cases hT : (c.verb == 'T') = true
+  · simp only [hT, if_true]
+  · simp only [hT]
+    unfold GV.plainTop at h
+    generalize v0.dyn = v at h ⊢
+    cases v with
+    | opq i => exact opq_leaf_ni hc hF c hw ρ₁ ρ₂ false hF i _ _
+    | ptr w =>
+      simp only at h
+      cases hq : w.isOpq with
+      | some i =>
+        have : w = .opq i := by cases w <;> simp_all [GV.isOpq]
+        subst this
+        simp only []
+        exact opq_leaf_ni hc hF c hw ρ₁ ρ₂ true (find_mono hF) i _ _
+      | none =>
+        simp only [hq, Option.isSome_none, Bool.false_or, Bool.and_eq_true] at h
+        simp only [pv, hq, h.1, Bool.not_true, Bool.false_and, Bool.true_and, Bool.false_eq_true, if_false, if_true]
+        exact pv_ni hc hF c hw ρ₁ ρ₂ w h.2
+    | str _ => rfl
+    | num _ => rfl
+    | nilv => rfl
+    | nilSlice => rfl
+    | nilMap => rfl
+    | iface v => simp only [GV.plainIn] at h; simp only [pv]; exact pv_ni hc hF c hw ρ₁ ρ₂ v h
+    | slice vs =>
+      simp only [GV.plainIn] at h
+      simp only [pv, Bool.not_true, Bool.false_and, Bool.false_eq_true, if_false]; exact pvL_ni hc hF c hw ρ₁ ρ₂ vs h
+    | array vs =>
+      simp only [GV.plainIn] at h
+      simp only [pv, Bool.not_true, Bool.false_and, Bool.false_eq_true, if_false]; exact pvL_ni hc hF c hw ρ₁ ρ₂ vs h
+    | map kvs =>
+      simp only [GV.plainIn] at h
+      simp only [pv, Bool.not_true, Bool.false_and, Bool.false_eq_true, if_false]; exact pvKV_ni hc hF c hw ρ₁ ρ₂ kvs h
+    | struct fs =>
+      simp only [GV.plainIn] at h
+      simp only [pv, Bool.not_true, Bool.false_and, Bool.false_eq_true, if_false]; exact pvF_ni hc hF c hw ρ₁ ρ₂ fs h
+
+end fmtNI
+
+/-- **fmt, general form.**  For any type of string kind whose methods do not look at the receiver and
+which implements `fmt.Formatter` on values: for every verb other than `w`/`p` (any rune), every flag
+set (`sharpV`; the other flags, width and precision only reach the library's string formatter, which
+is applied to the leaf text), value alone or inside slices, arrays, maps (keys and values), interfaces,
+exported struct fields at any depth, pointers to the value and a top-level pointer to a container:
+the texts that reach the output are the same for any two secret environments. -/
+theorem C14_fmt_noninterference (td : TD) (hc : td.Const) (hF : (td.find "Format" false).isSome = true)
+    (c : FmtCtx) (hw : (c.verb == 'w') = false) (hp : (c.verb == 'p') = false)
+    (v : GV) (hv : v.plainTop = true) (ρ₁ ρ₂ : Nat → String) : pa td c ρ₁ v = pa td c ρ₂ v :=
+  pa_ni hc hF c hw ρ₁ ρ₂ hp v hv
+
+/-- … instantiated on the regenerated method table of `configopaque.String`.  This is the
+obligation that stops checking when the type loses `Format` (or a method starts using the receiver). -/
+theorem C14_fmt_noninterference_partial (c : FmtCtx) (hw : (c.verb == 'w') = false) (hp : (c.verb == 'p') = false)
+    (v : GV) (hv : v.plainTop = true) (ρ₁ ρ₂ : Nat → String) : pa realTD c ρ₁ v = pa realTD c ρ₂ v :=
+  C14_fmt_noninterference realTD C14_methods_recv_free (by decide) c hw hp v hv ρ₁ ρ₂
+
+/-- non-vacuity: `%d` of a struct holding a map of opaque headers and a slice of pointers to opaque strings -/
+example : (GV.struct [({ name := "headers" }, .map [(.str "k", .opq 0)]), ({ name := "l" }, .slice [.ptr (.opq 1)])]).plainTop = true := by
+  decide
+example : pa realTD { verb := 'd' } (fun _ => "s3cr3t") (.slice [.opq 0]) = [⟨.formatter, Opaque.marker⟩] := by decide
+
+/-- every leaf text under those hypotheses is the marker: "all of these render the fixed redaction marker" -/
+theorem C14_fmt_value_renders_marker (c : FmtCtx) (hw : (c.verb == 'w') = false) (hp : (c.verb == 'p') = false)
+    (hT : (c.verb == 'T') = false) (ρ : Nat → String) (i : Nat) :
+    pa realTD c ρ (.opq i) = [⟨.formatter, Opaque.marker⟩] := by
+  simp only [pa, GV.dyn, hw, hp, hT, Bool.false_and, Bool.false_eq_true, if_false]
+  rfl
+
+/-- the full statement: every verb, every operand tree -/
+def C14_fmt_full : Prop :=
+  ∀ (c : FmtCtx) (v : GV) (ρ₁ ρ₂ : Nat → String), pa realTD c ρ₁ v = pa realTD c ρ₂ v
+
+def ρa : Nat → String := fun _ => "s3cr3t"
+def ρb : Nat → String := fun _ => "0ther"
+
+/-- `fmt` handles `%p` before it looks for any method: `Sprintf("%p", configopaque.String("s3cr3t"))`
+is `%!p(configopaque.String=s3cr3t)` whatever the type implements.  Not repairable inside the type. -/
+theorem C14_fmt_full_fails : ¬ C14_fmt_full := by
+  intro h
+  have := h { verb := 'p' } (.opq 0) ρa ρb
+  revert this; decide
+
+/-- the other ways into `badVerb` that no method of the operand can intercept (all four are replayed
+on the real library by the harness; signatures `C14/fmt/…`) -/
+theorem C14_fmt_residual_leaks :
+    pa realTD { verb := 'w' } ρa (.opq 0) ≠ pa realTD { verb := 'w' } ρb (.opq 0) ∧                      -- %w on a non-error
+    pa realTD { verb := 'p' } ρa (.struct [({ name := "s" }, .opq 0)])
+      ≠ pa realTD { verb := 'p' } ρb (.struct [({ name := "s" }, .opq 0)]) ∧                               -- %p on a struct
+    pa realTD { verb := 's' } ρa (.slice [.ptr (.struct [({ name := "s" }, .opq 0)])])
+      ≠ pa realTD { verb := 's' } ρb (.slice [.ptr (.struct [({ name := "s" }, .opq 0)])]) ∧               -- %s of []*struct
+    pa realTD { verb := 'v' } ρa (.struct [({ name := "s", exported := false }, .opq 0)])
+      ≠ pa realTD { verb := 'v' } ρb (.struct [({ name := "s", exported := false }, .opq 0)]) := by        -- unexported field
+  decide
+
+/-- why the repair was needed: a type of string kind *without* `Format` leaks under every verb that is
+not valid for strings, whatever else it implements (`erroring` suppresses `String`/`GoString`) -/
+theorem C14_fmt_needs_formatter (td : TD) (h0 : td.find "Format" false = none) (c : FmtCtx)
+    (hs : c.sharpV = false) (hv : stringVerbs.contains c.verb = false)
+    (hw : (c.verb == 'w') = false) (hp : (c.verb == 'p') = false) (hT : (c.verb == 'T') = false)
+    (ρ : Nat → String) (i : Nat) : pa td c ρ (.opq i) = [⟨.badVerbRaw, ρ i⟩] := by
+  simp only [pa, GV.dyn, hw, hp, hT, Bool.false_and, Bool.false_eq_true, if_false, methodsOf, h0, hs, hv,
+    rawString, Option.getD_none]
+
+example : stringVerbs.contains 'd' = false := by decide
+
+/-! ## marshalling libraries -/
+
+/-- every known marshalling path except the JSON map key consults a method of the type, and that
+method returns the marker: the bytes written do not depend on the secret -/
+theorem C14_paths : ∀ p ∈ knownPaths, p ≠ ("json", Pos.mapKey) →
+    ∀ s : String, pathText realTD p.1 p.2 s = Opaque.marker := by
+  intro p hp hne s
+  simp only [knownPaths, List.mem_cons, List.mem_nil_iff, or_false] at hp
+  rcases hp with rfl | rfl | rfl | rfl | rfl | rfl | rfl | rfl | rfl | rfl | rfl <;>
+    first | rfl | exact absurd rfl hne
+
+/-- `encoding/json` takes a map key of string kind from the raw string before it looks for
+`TextMarshaler` (encode.go `resolveKeyName`): an opaque string used as a JSON object key is written raw,
+whatever the type implements.  (No built-in configuration uses an opaque key.) -/
+theorem C14_json_mapkey_raw (td : TD) (s : String) : pathText td "json" .mapKey s = s := rfl
+
+def C14_paths_full : Prop := ∀ p ∈ knownPaths, ∀ s₁ s₂ : String, pathText realTD p.1 p.2 s₁ = pathText realTD p.1 p.2 s₂
+
+theorem C14_paths_full_fails : ¬ C14_paths_full := by
+  intro h
+  have := h ("json", .mapKey) (by decide) "s3cr3t" "0ther"
+  revert this; decide
+
+/-- the explicit conversion still returns the secret -/
+theorem C14_conversion_returns_secret (td : TD) (s : String) : pathText td "conv" .value s = s := rfl
+
+/-- unmarshalling stores the written string unchanged: the type has no `UnmarshalText` (mapstructure
+then assigns by kind), on values or pointers -/
+theorem C14_unmarshal_keeps : (realTD.find "UnmarshalText" true) = none ∧ (realTD.find "UnmarshalJSON" true) = none := by
+  decide
+
+/-! ## config-map encoder (`confmap.Conf.Marshal`) -/
+
+section encNI
+variable {td : TD} (hc : td.Const) (hT : (td.find "MarshalText" false).isSome = true)
+variable (ρ₁ ρ₂ : Nat → String) (he : ∀ i, (ρ₁ i == "") = (ρ₂ i == ""))
+set_option linter.unusedSectionVars false
+include hc hT he
+
+mutual
+theorem isZero_ni : ∀ v : GV, isZero ρ₁ v = isZero ρ₂ v
+  | .opq i => by simp only [isZero, he i]
+  | .str _ => rfl
+  | .num _ => rfl
+  | .nilv => rfl
+  | .ptr _ => rfl
+  | .iface _ => rfl
+  | .slice _ => rfl
+  | .nilSlice => rfl
+  | .array vs => by simp only [isZero, isZeroL_ni vs]
+  | .map _ => rfl
+  | .nilMap => rfl
+  | .struct fs => by simp only [isZero, isZeroF_ni fs]
+theorem isZeroL_ni : ∀ vs : List GV, isZeroL ρ₁ vs = isZeroL ρ₂ vs
+  | [] => rfl
+  | v :: vs => by simp only [isZeroL, isZero_ni v, isZeroL_ni vs]
+theorem isZeroF_ni : ∀ fs : List (FieldInfo × GV), isZeroF ρ₁ fs = isZeroF ρ₂ fs
+  | [] => rfl
+  | (_, v) :: fs => by simp only [isZeroF, isZero_ni v, isZeroF_ni fs]
+end
+
+mutual
+theorem enc_ni : ∀ v : GV, enc td ρ₁ v = enc td ρ₂ v
+  | .opq i => by
+    simp only [enc]
+    cases h : td.find "MarshalText" false with
+    | none => simp [h] at hT
+    | some m => simp only [eval_const (hc m (find_mem h)) (ρ₁ i) (ρ₂ i)]
+  | .str _ => rfl
+  | .num _ => rfl
+  | .nilv => rfl
+  | .ptr v => by simp only [enc]; exact enc_ni v
+  | .iface v => by simp only [enc]; exact enc_ni v
+  | .slice vs => by simp only [enc, encL_ni vs]
+  | .nilSlice => rfl
+  | .array _ => rfl
+  | .map kvs => by simp only [enc, encKV_ni kvs []]
+  | .nilMap => rfl
+  | .struct fs => by simp only [enc, encF_ni fs []]
+theorem encL_ni : ∀ vs : List GV, encL td ρ₁ vs = encL td ρ₂ vs
+  | [] => rfl
+  | v :: vs => by simp only [encL, enc_ni v, encL_ni vs]
+theorem encKV_ni : ∀ (kvs : List (GV × GV)) (acc : List (String × Any)), encKV td ρ₁ kvs acc = encKV td ρ₂ kvs acc
+  | [], _ => rfl
+  | (k, v) :: kvs, acc => by
+    simp only [encKV, enc_ni k, enc_ni v]
+    cases enc td ρ₂ k with
+    | error e => rfl
+    | ok ek =>
+      simp only [bind, Except.bind]
+      cases keyString ek with
+      | none => rfl
+      | some key =>
+        simp only []
+        split
+        · rfl
+        · cases enc td ρ₂ v with
+          | error e => rfl
+          | ok ev => simp only [encKV_ni kvs]
+theorem encF_ni : ∀ (fs : List (FieldInfo × GV)) (acc : List (String × Any)), encF td ρ₁ fs acc = encF td ρ₂ fs acc
+  | [], _ => rfl
+  | (fi, v) :: fs, acc => by
+    simp only [encF, enc_ni v, isZero_ni hc hT ρ₁ ρ₂ he v]
+    split
+    · exact encF_ni fs acc
+    · split
+      · exact encF_ni fs acc
+      · cases enc td ρ₂ v with
+        | error e => rfl
+        | ok e =>
+          simp only [bind, Except.bind]
+          split
+          · split
+            · exact encF_ni fs _
+            · exact encF_ni fs _
+          · exact encF_ni fs _
+end
+
+end encNI
+
+/-- **confmap.Marshal.**  For every value tree — any nesting of maps (opaque strings as values or keys),
+slices, pointers, interfaces, structs with `omitempty`/`squash`/`-`/unexported fields — the encoded
+configuration map (or the encoding error) is the same for any two secret environments that agree on
+which secrets are empty (`omitempty` on an opaque field reveals emptiness, nothing else).  Arrays are
+handed on as typed Go values (`Any.typed`, still of the opaque type), which is explicit in the model. -/
+theorem C14_encode_noninterference (td : TD) (hc : td.Const) (hT : (td.find "MarshalText" false).isSome = true)
+    (ρ₁ ρ₂ : Nat → String) (he : ∀ i, (ρ₁ i == "") = (ρ₂ i == "")) (v : GV) : enc td ρ₁ v = enc td ρ₂ v :=
+  enc_ni hc hT ρ₁ ρ₂ he v
+
+/-- on the regenerated method table an opaque leaf encodes to the marker string (the `TextMarshaler` hook fires) -/
+theorem C14_encode_leaf_marker (ρ : Nat → String) (i : Nat) : enc realTD ρ (.opq i) = .ok (.str Opaque.marker) := rfl
+
+theorem C14_encode_noninterference_real (ρ₁ ρ₂ : Nat → String) (he : ∀ i, (ρ₁ i == "") = (ρ₂ i == "")) (v : GV) :
+    enc realTD ρ₁ v = enc realTD ρ₂ v :=
+  C14_encode_noninterference realTD C14_methods_recv_free (by decide) ρ₁ ρ₂ he v
+
+/-- non-vacuity: headers map + squashed struct + omitempty opaque; the result mentions only the marker -/
+example : (enc realTD ρa (.struct [({ name := "headers" }, .map [(.str "k", .opq 0)]),
+                                   ({ name := "", squash := true }, .struct [({ name := "pw", omitEmpty := true }, .opq 1)])])).toOption.map Any.strings
+    = some ["headers", "k", Opaque.marker, "pw", Opaque.marker] := by decide
+
+/-- why the hypothesis on emptiness is needed (`omitempty`): an empty secret is omitted, a non-empty one is shown masked -/
+theorem C14_encode_omitempty_reveals_emptiness :
+    (enc realTD (fun _ => "") (.struct [({ name := "pw", omitEmpty := true }, .opq 0)])).toOption.map Any.strings
+      ≠ (enc realTD (fun _ => "x") (.struct [({ name := "pw", omitEmpty := true }, .opq 0)])).toOption.map Any.strings := by
+  decide
+
+/-- why `TextMarshaler` is needed: without it the hook chain hands the value on untouched and, as a map
+key, its raw content becomes the key of the configuration map -/
+theorem C14_encode_needs_textmarshaler :
+    (enc [] ρa (.map [(.opq 0, .num 1)])).toOption.map Any.strings ≠ (enc [] ρb (.map [(.opq 0, .num 1)])).toOption.map Any.strings := by
+  decide
+
+/-- the search oracle used on the implementation's effective configuration: no string of it is a secret -/
+def leakFree (secrets strs : List String) : Bool := strs.all (fun s => !secrets.contains s)
+
+theorem C14_check_sound (secrets strs : List String) (h : leakFree secrets strs = true) :
+    ∀ s ∈ strs, s ∉ secrets := by
+  intro s hs hmem
+  have := List.all_eq_true.mp h s hs
+  simp [hmem] at this
+
 end OtelVerif.C14
